@@ -26,24 +26,26 @@ LEVEL = 'other'
 N_UNITS = 8
 
 
-def dyadic_cells(max_level, min_level=0):
+def dyadic_cells(max_level, min_level=0, units=None):
+    units = units or N_UNITS
     out = []
     for l in range(min_level, max_level + 1):
-        w = N_UNITS >> l
+        w = units >> l
         for k in range(2**l):
             out.append((k * w, (k + 1) * w))
     return out
 
 
 # -- P1 ------------------------------------------------------------------------------------------------
-def panels_run(eng, SL, cell_x, cell_y, glued, fail, concrete_u=None):
+def panels_run(eng, SL, cell_x, cell_y, glued, fail, concrete_u=None, units=None):
+    units = units or N_UNITS
     if concrete_u is None:
         u = eng.real('u')
         eng.assume(u >= Fraction(1, 10**4))
         eng.assume(u <= 1000)
     else:
         u = concrete_u
-    L = u * N_UNITS
+    L = u * units
 
     class G:
         gamma_length = L
@@ -100,7 +102,7 @@ def panels_run(eng, SL, cell_x, cell_y, glued, fail, concrete_u=None):
 
 
 def panels_worker(case):
-    glued, pairs = case
+    glued, pairs, units = case
     SL, SLE, Q = slsym.load_sl()
     eng = Engine(timeout_ms=30000)
     res = dict(stats=None, violations=[], inconclusive=[], samples=[], functions=[
@@ -114,7 +116,7 @@ def panels_worker(case):
 
         def body():
             cands.clear()
-            return panels_run(eng, SL, cx, cy, glued, fail)
+            return panels_run(eng, SL, cx, cy, glued, fail, units=units)
         try:
             for pr in eng.explore(body):
                 res['evaluations'] += 1
@@ -130,7 +132,7 @@ def panels_worker(case):
                         res['samples'].append(dict(pair=[list(cx), list(cy)], glued=glued, panels=pr.value))
                 for sig, what, model in cands:
                     uval = eng.model_inputs(model).get('u') if model is not None else None
-                    rp = dict(kind='panels', cx=list(cx), cy=list(cy), glued=glued, u=str(uval) if uval else '1')
+                    rp = dict(kind='panels', cx=list(cx), cy=list(cy), glued=glued, u=str(uval) if uval else '1', units=units)
                     res['violations'].append(dict(signature=sig, what=what, replay=rp, reproduced=replay(rp)))
                 cands.clear()
         except Inconclusive as e:
@@ -151,7 +153,7 @@ def replay(rp):
         try:
             if rp['kind'] == 'panels':
                 u = float(Fraction(rp['u']))
-                panels_run(eng, SL, tuple(rp['cx']), tuple(rp['cy']), rp['glued'], fail, concrete_u=u)
+                panels_run(eng, SL, tuple(rp['cx']), tuple(rp['cy']), rp['glued'], fail, concrete_u=u, units=rp.get('units'))
             elif rp['kind'] == 'timekernel':
                 vals = {k: float(Fraction(v)) for k, v in rp['values'].items()}
                 return timekernel_concrete(vals)
@@ -483,15 +485,15 @@ def recursion_worker(case):
 
 def run(out):
     quick = out.tier == 'quick'
-    maxl = 3
-    cells_open = dyadic_cells(maxl)
-    cells_glued = dyadic_cells(maxl, 2)  # each at most a quarter of the closed curve
+    maxl, units = (3, 8) if quick else (4, 16)
+    cells_open = dyadic_cells(maxl, 0, units)
+    cells_glued = dyadic_cells(maxl, 2, units)  # each at most a quarter of the closed curve
     cases = []
     for glued, cells in ((False, cells_open), (True, cells_glued)):
         pairs = [(p, q) for p in cells for q in cells if p <= q]
         nshard = 8
         for s in range(nshard):
-            cases.append((glued, pairs[s::nshard]))
+            cases.append((glued, pairs[s::nshard], units))
     results = report.pmap('checks.c01', 'panels_worker', cases)
     for c, r in zip(cases, results):
         report.merge_worker(out, r, part='P1 panels glued=%s' % c[0])
@@ -499,7 +501,7 @@ def run(out):
                      ('P2 variables', 'variables_worker'), ('P3 recursion', 'recursion_worker')):
         for r in report.pmap('checks.c01', fn, [0]):
             report.merge_worker(out, r, part=name)
-    out.bounds = dict(parameter_interval='%d symbolic units u, 1e-4 <= u <= 1e3' % N_UNITS,
+    out.bounds = dict(parameter_interval='%d symbolic units u, 1e-4 <= u <= 1e3' % units,
                       cells='dyadic cells of level <= %d (level >= 2 when glued)' % maxl,
                       time_configurations='all orderings of a<b, c<d (symbolic reals)')
     out.outside = ['the 1e-7 accuracy of any entry (no decision procedure for quadrature error of Ei/exp integrands)',
